@@ -158,12 +158,181 @@ def ob_query_front(r, tier, seed, fn, maxlen, alpha, fixed):
         elif len(r.samples) < 3: r.samples.append({'text': text, 'line': ln, 'col': cl, 'typechecked': val})
     if fn != 'hover_type' and cuts == 0: raise Unsupported('vacuous: no path of %s reaches the type checker' % fn)
 
+
+# ----------------------------------------------------------------------------- O20.3 what is offered exists: the item lists of `Path::` and `x.` completion against an environment
+def _env_tools(W):
+    from props import c17
+    E = c17.Env(W); tt = W.tt
+    E.ED = tt.find_adt(['env', 'EnumDef'], 'compiler'); E.SD = tt.find_adt(['env', 'StructDef'], 'compiler'); E.TEN = tt.find_adt(['env', 'TypeEnv'], 'compiler')
+    E.VE = tt.find_adt(['env', 'ValueEnv'], 'compiler'); E.IK = tt.find_adt(['env', 'InherentImplKey'], 'compiler')
+    def ident(n): return Agg(E.TI.key, 0, [mkstr(n)])
+    def mk(adt, d): return Agg(adt.key, 0, [d[f[0]] for f in adt.variants[0].fields])
+    def fty(E_=E): return E_.T('TFunc', PyVec([]), ms.engine.mkbox(E_.T('TUnit')))
+    def add_enum(genv, name, variants):
+        te = E.field(E.GE, genv, 'type_env'); m = E.field(E.TEN, te, 'enums')
+        m.keys.append(ident(name)); m.vals.append(mk(E.ED, {'name': ident(name), 'generics': PyVec([]), 'variants': PyVec([Agg('tuple', 0, [ident(v), PyVec([])]) for v in variants])}))
+    def add_struct(genv, name, fields):
+        te = E.field(E.GE, genv, 'type_env'); m = E.field(E.TEN, te, 'structs')
+        m.keys.append(ident(name)); m.vals.append(mk(E.SD, {'name': ident(name), 'generics': PyVec([]), 'fields': PyVec([Agg('tuple', 0, [ident(v), E.T('TInt32')]) for v in fields])}))
+    def add_fn(genv, name):
+        ve = E.field(E.GE, genv, 'value_env'); m = E.field(E.VE, ve, 'funcs'); m.keys.append(mkstr(name)); m.vals.append(E.scheme(fty()))
+    def add_inherent(genv, key, methods):
+        te = E.field(E.GE, genv, 'trait_env'); m = E.field(E.TE, te, 'inherent_impls')
+        mm = ms.engine.PyMap('index')
+        for x in methods: mm.keys.append(mkstr(x)); mm.vals.append(E.scheme(fty()))
+        m.keys.append(key); m.vals.append(Agg(E.ID.key, 0, [{'params': PyVec([]), 'methods': mm}[f[0]] for f in E.ID.variants[0].fields]))
+    E.ident, E.add_enum, E.add_struct, E.add_fn, E.add_inherent, E.fty = ident, add_enum, add_struct, add_fn, add_inherent, fty
+    return E
+
+def ob_namespace_items(r, tier, seed):
+    W = e2.fresh_world(CRATES); E = _env_tools(W)
+    W.stubs['to_pretty'] = lambda ex, a: mkstr('<type>')
+    for nm in list(W.methods.get('to_pretty', [])): W.stubs[nm[1]] = lambda ex, a: mkstr('<type>')
+    ENUMS = {'E': ['A', 'B'], 'Lib::E': ['C'], 'Lib::Sub::E': ['D'], 'LibX::E': ['F']}
+    STRUCTS = {'S': ['x'], 'Lib::S': ['y'], 'Lib::Sub::S2': ['z']}
+    TRAITS = {'Lib::T': ['tm'], 'T': ['tn']}
+    FUNCS = ['Lib::f', 'Lib::Sub::g', 'f', 'LibX::h']
+    INH = {'E': ['em'], 'Lib::E': ['lem'], 'S': ['sm'], 'Lib::S': ['lsm']}
+    NS = ['Lib', 'E', 'Lib::E', 'S', 'Lib::S', 'T', 'Lib::T', 'Li', 'Lib::Sub', 'Nope']
+    r.bounds = ('query::colon_colon_items_for_namespace on the namespaces %s against an environment in which each of the enums %s, structs %s, traits %s, functions %s and the inherent impls of %s is present or absent (solver decision per group)'
+                % (NS, list(ENUMS), list(STRUCTS), list(TRAITS), FUNCS, list(INH)))
+    r.assumptions = ['tast::Ty::to_pretty (external pretty printer) is an environment stub: the detail text of an item is not checked',
+                     'oracle: the offered names are exactly - for an enum: its variants and the methods of its inherent impl; for a trait: its methods; for a struct: the methods of its inherent impl; '
+                     'otherwise the direct members `ns::name` (no further `::`) of the enums, structs, traits and functions of the environment',
+                     'environments built by GlobalTypeEnv::new_empty (real) and filled through the IndexMap model']
+    def entry(ex):
+        ns = ex.choose([(True, x) for x in NS])
+        he, hs, ht, hf, hi = [ex.choose([(True, True), (True, False)]) for _ in range(5)]
+        g = ex.call('env::GlobalTypeEnv::new_empty', [])
+        if he:
+            for n, vs in ENUMS.items(): E.add_enum(g, n, vs)
+        if hs:
+            for n, fs in STRUCTS.items(): E.add_struct(g, n, fs)
+        if ht:
+            for n, msn in TRAITS.items(): E.add_trait(g, n, msn[0], E.fty())
+        if hf:
+            for n in FUNCS: E.add_fn(g, n)
+        if hi:
+            for n, msn in INH.items():
+                ty = E.T('TEnum', mkstr(n)) if n.endswith('E') else E.T('TStruct', mkstr(n))
+                E.add_inherent(g, Agg(E.IK.key, E.IK.vindex('Exact'), [ty]), msn)
+        h = {0: g, 1: mkstr(ns)}
+        res = ex.call('query::colon_colon_items_for_namespace', [Ref(h, 0), Ref(h, 1)])
+        return ns, (he, hs, ht, hf, hi), [ms.pystr(it.fields[0]) for it in res.items]
+    res = e2.explore(r, W, entry, [])
+    for p in res:
+        r.cases += 1
+        if p.kind != 'ok':
+            if not any(f.key == 'panic' for f in r.findings): r.findings.append(Finding('panic', 'colon_colon_items_for_namespace panics: %s' % str(p.value)[:200], {}, False, 'not replayed'))
+            continue
+        ns, (he, hs, ht, hf, hi), got = p.value; r.nontrivial += 1
+        enums = ENUMS if he else {}; structs = STRUCTS if hs else {}; traits = TRAITS if ht else {}; funcs = FUNCS if hf else []; inh = INH if hi else {}
+        if ns in enums: want = list(enums[ns]) + sorted(inh.get(ns, []))
+        elif ns in traits: want = list(traits[ns])
+        elif ns in structs: want = sorted(inh.get(ns, []))
+        else:
+            def members(names): return [n[len(ns) + 2:] for n in names if n.startswith(ns + '::') and '::' not in n[len(ns) + 2:] and n[len(ns) + 2:]]
+            want = members(enums) + members(structs) + members(traits) + members(funcs)
+        if got != want:
+            key = 'offers-nonexistent-item' if set(got) - set(want) else ('misses-item' if set(want) - set(got) else 'order')
+            if any(f.key == key for f in r.findings): continue
+            ok_, detail = replay_namespace(ns, enums, structs, traits, funcs, inh, got, want)
+            r.findings.append(Finding(key, 'namespace %r with enums %s structs %s traits %s functions %s inherent impls %s: offered %s, existing members %s' % (ns, list(enums), list(structs), list(traits), funcs, list(inh), got, want),
+                                      {'namespace': ns, 'offered': got, 'expected': want}, ok_, detail))
+        elif len(r.samples) < 3 and got: r.samples.append({'namespace': ns, 'offered': got})
+
+def replay_namespace(ns, enums, structs, traits, funcs, inh, got, want):
+    """two-package project through the real query entry point: Lib with the chosen items, Main asking for `ns::` inside main"""
+    import tempfile, os, shutil
+    d = tempfile.mkdtemp(prefix='vf-c20-')
+    try:
+        os.makedirs(os.path.join(d, 'Lib'))
+        lib = 'package Lib\n\n'; main = 'package Main\nimport Lib\n\n'
+        def items(pref):
+            t = ''
+            for n, vs in enums.items():
+                if n.rsplit('::', 1)[0] == pref or (pref == '' and '::' not in n): t += 'enum %s { %s }\n' % (n.split('::')[-1], ', '.join(vs))
+            for n, fs in structs.items():
+                if n.rsplit('::', 1)[0] == pref or (pref == '' and '::' not in n): t += 'struct %s { %s }\n' % (n.split('::')[-1], ', '.join(f + ': int32' for f in fs))
+            for n, msn in traits.items():
+                if n.rsplit('::', 1)[0] == pref or (pref == '' and '::' not in n): t += 'trait %s { fn %s(Self) -> unit; }\n' % (n.split('::')[-1], msn[0])
+            for n in funcs:
+                if n.rsplit('::', 1)[0] == pref or (pref == '' and '::' not in n): t += 'fn %s() -> unit { () }\n' % n.split('::')[-1]
+            for n, msn in inh.items():
+                if (n in enums or n in structs) and (n.rsplit('::', 1)[0] == pref or (pref == '' and '::' not in n)): t += 'impl %s { fn %s() -> unit { () } }\n' % (n.split('::')[-1], msn[0])
+            return t
+        lib += items('Lib'); main += items('') + 'fn main() -> unit {\n    let _ = %s::\n}\n' % ns
+        open(os.path.join(d, 'Lib', 'lib.gom'), 'w').write(lib); open(os.path.join(d, 'main.gom'), 'w').write(main)
+        line = main.count('\n') - 2; col = len('    let _ = %s::' % ns)
+        rc, out, errt = build.run_driver('vreplay', json.dumps({'fn': 'query_file', 'args': ['colon', os.path.join(d, 'main.gom'), line, col]}) + '\n', timeout=120)
+        nat = json.loads(out.splitlines()[0]) if out.strip() else {'error': errt[-200:]}
+    finally: shutil.rmtree(d, ignore_errors=True)
+    offered = (nat.get('ok') or {}).get('colon')
+    if offered is None: return False, 'native colon_colon_completions gave no list: %s' % json.dumps(nat)[:200]
+    nested = [n for n in list(enums) + list(structs) + list(traits) + funcs if n.count('::') > 1 or n.startswith('LibX')]
+    return (sorted(offered) != sorted(want)), 'native colon_colon_completions at `%s::` in a project with the same items (names nested deeper than one package - %s - cannot be declared and are left out): %s' % (ns, nested, offered)
+
+def ob_dot_items(r, tier, seed):
+    W = e2.fresh_world(CRATES); E = _env_tools(W)
+    for nm in list(W.methods.get('to_pretty', [])): W.stubs[nm[1]] = lambda ex, a: mkstr('<type>')
+    W.stubs['to_pretty'] = lambda ex, a: mkstr('<type>')
+    TYS = ['S', 'Lib::S', 'E', 'int32', 'Ref[S]', 'B[int32]', 'Ref[B[int32]]', '(S, S)', 'Vec[S]']
+    r.bounds = 'query::normalize_completion_ty + completions_for_type + filter_dot_items on receiver types %s, prefixes "", "x", "s"; structs S {x, sy}, Lib::S {lx}, B {bx}; inherent impls for S {sm, xm}, Lib::S {lm}, E {em}, int32 {im}, B[int32] (exact) {bm} and B (constructor) {cm}; each group present or absent' % TYS
+    r.assumptions = ['tast::Ty::to_pretty is an environment stub', 'oracle: the offered names are exactly the fields of the struct the receiver type (after stripping references) names, followed by the sorted methods of the inherent impls registered for exactly that type or for its constructor, restricted to the names starting with the prefix']
+    STR = {'S': ['x', 'sy'], 'Lib::S': ['lx'], 'B': ['bx']}
+    def ty_of(t):
+        if t == 'int32': return E.T('TInt32')
+        if t == 'E': return E.T('TEnum', mkstr('E'))
+        if t.startswith('Ref['): return E.T('TRef', ms.engine.mkbox(ty_of(t[4:-1])))
+        if t.startswith('Vec['): return E.T('TVec', ms.engine.mkbox(ty_of(t[4:-1])))
+        if t.startswith('B['): return E.T('TApp', ms.engine.mkbox(E.T('TStruct', mkstr('B'))), PyVec([ty_of(t[2:-1])]))
+        if t.startswith('('): return E.T('TTuple', PyVec([ty_of('S'), ty_of('S')]))
+        return E.T('TStruct', mkstr(t))
+    INH = [('S', ['sm', 'xm']), ('Lib::S', ['lm']), ('E', ['em']), ('int32', ['im']), ('B[int32]', ['bm'])]
+    def entry(ex):
+        t = ex.choose([(True, x) for x in TYS]); pre = ex.choose([(True, x) for x in ['', 'x', 's']])
+        hs, hi, hc = [ex.choose([(True, True), (True, False)]) for _ in range(3)]
+        g = ex.call('env::GlobalTypeEnv::new_empty', [])
+        if hs:
+            for n, fs in STR.items(): E.add_struct(g, n, fs)
+        if hi:
+            for n, msn in INH: E.add_inherent(g, Agg(E.IK.key, E.IK.vindex('Exact'), [ty_of(n)]), msn)
+        if hc: E.add_inherent(g, Agg(E.IK.key, E.IK.vindex('Constr'), [mkstr('B')]), ['cm'])
+        ty = ex.call('query::normalize_completion_ty', [ty_of(t)])
+        h = {0: g, 1: ty, 2: mkstr(pre)}
+        items = ex.call('query::completions_for_type', [Ref(h, 0), Ref(h, 1)])
+        res = ex.call('query::filter_dot_items', [items, Ref(h, 2)])
+        return t, pre, (hs, hi, hc), [ms.pystr(it.fields[0]) for it in res.items]
+    res = e2.explore(r, W, entry, [])
+    for p in res:
+        r.cases += 1
+        if p.kind != 'ok':
+            if not any(f.key == 'panic' for f in r.findings): r.findings.append(Finding('panic', 'completions_for_type panics: %s' % str(p.value)[:200], {}, False, 'not replayed'))
+            continue
+        t, pre, (hs, hi, hc), got = p.value; r.nontrivial += 1
+        base = t
+        while base.startswith('Ref['): base = base[4:-1]
+        sname = base.split('[')[0] if not base.startswith('(') and not base.startswith('Vec') else None
+        fields = list(STR.get(sname, [])) if hs and sname else []
+        meths = []
+        if hi: meths += dict(INH).get(base, [])
+        if hc and base.startswith('B['): meths += ['cm']
+        want = [n for n in fields + sorted(meths) if n.startswith(pre)]
+        if got != want:
+            key = 'offers-nonexistent-member' if set(got) - set(want) else ('misses-member' if set(want) - set(got) else 'order')
+            if any(f.key == key for f in r.findings): continue
+            r.findings.append(Finding(key, 'receiver %s, prefix %r (structs %s, inherent impls %s, constructor impl %s): offered %s, existing members %s' % (t, pre, hs, hi, hc, got, want), {'type': t, 'prefix': pre, 'offered': got, 'expected': want}, True,
+                                      'list returned by the real functions (MIR); they are private - natively reachable only through dot_completions after type checking'))
+        elif len(r.samples) < 3 and got: r.samples.append({'type': t, 'prefix': pre, 'offered': got})
+
 def obligations():
     FIXED = ['struct P{x:int32}\nfn f(p:P){p.}', 'fn f(){E::}', 'fn f(p:P){p.xé}', 'fn f(){E::Vé}']
     front = []
     for fn in ('hover_type', 'dot_completions', 'colon_colon_completions'):
         front.append(Ob('O20.2-front-' + fn, fn + ' returns normally from its entry up to the type checker for every text, line and column', ob_query_front, ('quick', 'thorough'), 10, dict(fn=fn, maxlen=2, alpha='a.:\né', fixed=FIXED)))
         front.append(Ob('O20.2-front-' + fn + '-3', 'same, texts of up to 3 characters over a larger alphabet', ob_query_front, ('thorough',), 30, dict(fn=fn, maxlen=3, alpha='a.:\né _', fixed=FIXED)))
+    front.append(Ob('O20.3-namespace-items', 'every item offered after `Path::` exists in the environment, and every direct member is offered', ob_namespace_items, ('quick', 'thorough'), 5, {}))
+    front.append(Ob('O20.3-dot-items', 'every member offered after `x.` is a field or inherent method of the receiver type, and all of them are offered', ob_dot_items, ('quick', 'thorough'), 5, {}))
     return front + [Ob('O20.1-ident-prefix', 'ident_prefix_at_offset returns normally for every text and every offset, with the identifier prefix before the cursor', ob_text_kernel, ('quick', 'thorough'), 5, dict(fn='ident_prefix_at_offset', maxlen=3)),
             Ob('O20.1-path-segments', 'path_segments_at_offset returns normally for every text and every offset, with the path around the cursor', ob_text_kernel, ('quick', 'thorough'), 5, dict(fn='path_segments_at_offset', maxlen=3)),
             Ob('O20.1-ident-prefix-4', 'same, texts of up to 4 characters', ob_text_kernel, ('thorough',), 30, dict(fn='ident_prefix_at_offset', maxlen=4)),
